@@ -2,7 +2,7 @@
 socket, followed by the capacity probe: N-1 connections held open and idle (each keeps one
 worker in `read`), and an N-th valid request that must still be answered.
 Connection kinds: valid request, every known fault-provoking request (regression corpus of the
-C04 findings), early close, reset (RST) before sending, reset right after sending, half-sent
+C04 findings), early close, reset (RST) before sending, bursts of connections reset while still in the listen queue (server stopped with SIGSTOP meanwhile), reset right after sending, half-sent
 request then close, oversized request.  Oracle on the implementation alone: the server process is
 alive after the history, valid requests in the history are answered, and the probe is answered."""
 import os, socket, struct, time, tempfile, shutil, threading
@@ -17,7 +17,7 @@ FAULTY = [b'GET x HTTP/1.1\r\n\r\n', b'GET * HTTP/1.1\r\n\r\n', b'GET http://a/b
           b'POST /form-multipart-enctype-post-method HTTP/1.1\r\nContent-Type: multipart/form-data; boundary=B\r\n\r\n' + b'--B\r\nContent-Disposition: form-data; name="a"\r\n\r\n\r\n' * 150 + b'--B--\r\n',
           b'\xff\xfe\x00', b'', b'GET /../../etc/passwd HTTP/1.1\r\n\r\n', b'OPTIONS * HTTP/1.1\r\n\r\n',
           b'GET /f.txt HTTP/1.1\r\nRange: bytes=18446744073709551615-\r\n\r\n', b'HEAD /f.txt HTTP/9.9\r\n\r\n']
-KINDS = ['valid', 'faulty', 'early-close', 'rst-before', 'rst-after', 'half-sent', 'oversized', 'oversized-malformed']
+KINDS = ['valid', 'faulty', 'early-close', 'rst-before', 'rst-after', 'half-sent', 'oversized', 'oversized-malformed', 'rst-before-accept']
 
 def _conn(port, timeout=5):
     s = socket.create_connection(('127.0.0.1', port), timeout=timeout)
@@ -36,6 +36,21 @@ def one(server, kind, rng):
             r = rng.choice(FAULTY)
             try: return server.request(r, timeout=10), ''
             except Exception as e: return None, f'faulty request got no answer: {type(e).__name__} {r[:40]!r}'
+        if kind == 'rst-before-accept':
+            # a burst of connections that are reset while they still wait in the listen queue: the server process is stopped (SIGSTOP),
+            # the kernel completes the handshakes, the resets arrive, the process continues and accept() hands over sockets whose
+            # peer is already gone (peer_addr fails) - the branch of the accept loop no ordinary client reaches
+            import signal
+            k = rng.choice([8, 20, 40, 100])
+            server.proc.send_signal(signal.SIGSTOP)
+            try:
+                for _ in range(k):
+                    try: _rst(_conn(server.port, timeout=1))
+                    except OSError: break
+            finally:
+                server.proc.send_signal(signal.SIGCONT)
+            time.sleep(0.05)
+            return b'', ''
         s = _conn(server.port)
         if kind == 'early-close': s.close()
         elif kind == 'rst-before': _rst(s)
@@ -83,6 +98,7 @@ def run_part(res, rng, tier):
             length = rng.range(1, 40) if (tier == 'quick' or rng.chance(1, 2)) else rng.range(40, 400)
             hist = [rng.choice(KINDS) if rng.chance(3, 4) else 'faulty' for _ in range(length)]
             if rng.chance(1, 3): hist += ['faulty'] * n            # a burst of N fault-provoking connections at the end
+            if h < 3: n = (1, 2, 4)[h]; hist = ['valid'] + ['rst-before-accept'] * 4 + hist[:10] + ['valid']   # several hundred connections reset in the listen queue
             with RB.Server(base, threads=n, capture_stdout=False) as srv:
                 unanswered = []
                 for k in hist:
